@@ -3,7 +3,8 @@ import MalVerif.Py.TieLegacyBase
 # Tie of the translated 0.0.39 loader: the association loop
 
 `assoc_sim`: one round of the loop over `associations` of the translated `updater_process_model`
-(`assocBody`) is one `Legacy.loadOldAssoc` of the hand model.
+(`assocBody`) is one `Legacy.loadOldAssoc` of the hand model; when it raises, the hand model rejects with an error that
+agrees with the exception (`OldErrAgree`; `loadOld_err_class`, `FieldErr`).
 -/
 namespace MalVerif.PyLeg.Tie
 open MalVerif MalVerif.PyM MalVerif.PyM.Gen MalVerif.PyM.Tie MalVerif.PyLeg MalVerif.PyLeg.Gen MalVerif.Legacy
@@ -154,19 +155,27 @@ theorem fieldBody_eq (env : ModelEnv) (fac : Factory) (lref : LRef) (f : String)
   rw [h1, ids_mapM]
   cases ks.mapM Key.toInt? <;> rfl
 
+/-- the exceptions of one field assignment: `ValueError` (`int(id)` of a string that is not a number) or the pjs
+`ValidationError` (unknown id = `None` member, no such field, member type, `maxItems`) -/
+def FieldErr (e : LErr) : Prop := e = .py .valueError ∨ e = .validation
+
+/-- the hand model answers `validation` in all these cases -/
+theorem FieldErr.agree {e : LErr} (h : FieldErr e) : OldErrAgree e .validation := by
+  rcases h with h | h <;> subst h <;> decide
+
 theorem field_unresolved (env : ModelEnv) (fac : Factory) (s : H) (o : PyAssoc) (f : String) (ks : List Key)
     (hr : Ser.resolveIds (abs s) ks = none) :
-    ∃ e, fieldBody env fac s.lfresh (.str f, .list (ks.map keyJ)) (newAssocObj s o) = .error e := by
+    ∃ e, fieldBody env fac s.lfresh (.str f, .list (ks.map keyJ)) (newAssocObj s o) = .error e ∧ FieldErr e := by
   rw [fieldBody_eq]
   rw [← resolveIds_newAssocObj s o, resolveIds_eq] at hr
   cases hk : ks.mapM Key.toInt? with
-  | none => exact ⟨_, rfl⟩
+  | none => exact ⟨_, rfl, Or.inl rfl⟩
   | some is =>
     rw [hk] at hr
     have hr' : is.mapM (MS.getAssetById (abs (newAssocObj s o))) = none := hr
     unfold pjsSetField
     simp only [mapM_id_map, hr']
-    exact ⟨_, rfl⟩
+    exact ⟨_, rfl, Or.inr rfl⟩
 
 /-- the pjs guard of one field: member types and `maxItems` -/
 def fieldOk (fac : Factory) (s : H) (ty : String) (mx : Option Nat) (xs : List ARef) : Bool :=
@@ -204,35 +213,37 @@ theorem field_resolved (env : ModelEnv) (fac : Factory) (s : H) (o : PyAssoc) (f
 /-! ### the hand model's step, case by case -/
 
 theorem loadOld_err_left (L : Lang) (st : MS.St) (a : OldAssoc) (h : Ser.resolveIds st a.left = none) :
-    ∃ er, loadOldAssoc L st a = .error er := by
-  unfold loadOldAssoc; rw [h]; exact ⟨_, rfl⟩
+    loadOldAssoc L st a = .error .validation := by
+  unfold loadOldAssoc; rw [h]
 
 theorem loadOld_err_right (L : Lang) (st : MS.St) (a : OldAssoc) (h : Ser.resolveIds st a.right = none) :
-    ∃ er, loadOldAssoc L st a = .error er := by
+    loadOldAssoc L st a = .error .validation := by
   unfold loadOldAssoc; rw [h]
-  cases Ser.resolveIds st a.left <;> exact ⟨_, rfl⟩
+  cases Ser.resolveIds st a.left <;> rfl
 
+/-- no such class: Python raises `AttributeError` before it looks at the ids; the hand model resolves the ids first
+(`validation`, which is also what `errAbs` makes of `AttributeError`) and then says `lookupError` -/
 theorem loadOld_err_class (L : Lang) (st : MS.St) (a : OldAssoc)
     (h : (MS.assocClasses L).find? (·.cls = a.metaconcept) = none) :
-    ∃ er, loadOldAssoc L st a = .error er := by
+    ∃ er, loadOldAssoc L st a = .error er ∧ OldErrAgree (.py .attributeError) er := by
   unfold loadOldAssoc
   cases Ser.resolveIds st a.left with
-  | none => exact ⟨_, rfl⟩
+  | none => exact ⟨.validation, rfl, by decide⟩
   | some l =>
     cases Ser.resolveIds st a.right with
-    | none => exact ⟨_, rfl⟩
-    | some r => simp only [h]; exact ⟨_, rfl⟩
+    | none => exact ⟨.validation, rfl, by decide⟩
+    | some r => simp only [h]; exact ⟨.lookupError, rfl, by decide⟩
 
 theorem loadOld_err_fields (L : Lang) (st : MS.St) (a : OldAssoc) (c : MS.AssocClass)
     (h : (MS.assocClasses L).find? (·.cls = a.metaconcept) = some c) (hn : ¬ (c.lf = a.lf ∧ c.rf = a.rf)) :
-    ∃ er, loadOldAssoc L st a = .error er := by
+    loadOldAssoc L st a = .error .validation := by
   unfold loadOldAssoc
   cases Ser.resolveIds st a.left with
-  | none => exact ⟨_, rfl⟩
+  | none => rfl
   | some l =>
     cases Ser.resolveIds st a.right with
-    | none => exact ⟨_, rfl⟩
-    | some r => simp only [h, if_neg hn]; exact ⟨_, rfl⟩
+    | none => rfl
+    | some r => simp only [h, if_neg hn]
 
 theorem loadOld_match (fac : Factory) (s : H) (a : OldAssoc) (c : MS.AssocClass) (l r : List ARef)
     (hl : Ser.resolveIds (abs s) a.left = some l) (hr : Ser.resolveIds (abs s) a.right = some r)
@@ -253,7 +264,7 @@ theorem fields_cases (env : ModelEnv) (fac : Factory) (s : H) (a : OldAssoc) (c 
     (hf : (MS.assocClasses fac.L).find? (·.cls = a.metaconcept) = some c) (hne : c.lf ≠ c.rf)
     (hd : a.lf ≠ a.rf) (hsw : ¬ (a.lf = c.rf ∧ a.rf = c.lf)) :
     ((∃ e, forIn (assocItems a) (newAssocObj s { cls := a.metaconcept, lf := c.lf, rf := c.rf, distinct := hne })
-        (fieldBody env fac s.lfresh) = .error e) ∧ ∃ er, loadOldAssoc fac.L (abs s) a = .error er) ∨
+        (fieldBody env fac s.lfresh) = .error e ∧ FieldErr e) ∧ loadOldAssoc fac.L (abs s) a = .error .validation) ∨
     (∃ l r, forIn (assocItems a) (newAssocObj s { cls := a.metaconcept, lf := c.lf, rf := c.rf, distinct := hne })
         (fieldBody env fac s.lfresh) =
           .ok (newAssocObj s { cls := a.metaconcept, lf := c.lf, rf := c.rf, left := l, right := r, distinct := hne }) ∧
@@ -262,9 +273,9 @@ theorem fields_cases (env : ModelEnv) (fac : Factory) (s : H) (a : OldAssoc) (c 
   unfold assocItems
   cases hl : Ser.resolveIds (abs s) a.left with
   | none =>
-    obtain ⟨e, he⟩ := field_unresolved env fac s
+    obtain ⟨e, he, hfe⟩ := field_unresolved env fac s
       { cls := a.metaconcept, lf := c.lf, rf := c.rf, distinct := hne } a.lf a.left hl
-    exact .inl ⟨⟨e, forIn_cons_err _ _ _ _ _ he⟩, loadOld_err_left _ _ _ hl⟩
+    exact .inl ⟨⟨e, forIn_cons_err _ _ _ _ _ he, hfe⟩, loadOld_err_left _ _ _ hl⟩
   | some l =>
     have h1 := field_resolved env fac s { cls := a.metaconcept, lf := c.lf, rf := c.rf, distinct := hne }
       a.lf a.left l c hl hf
@@ -276,21 +287,21 @@ theorem fields_cases (env : ModelEnv) (fac : Factory) (s : H) (a : OldAssoc) (c 
       cases g1 : fieldOk fac s c.ltype c.lmax l with
       | false =>
         rw [g1] at h1
-        refine .inl ⟨⟨_, forIn_cons_err _ _ _ _ _ h1⟩, ?_⟩
+        refine .inl ⟨⟨_, forIn_cons_err _ _ _ _ _ h1, Or.inr rfl⟩, ?_⟩
         cases hr : Ser.resolveIds (abs s) a.right with
         | none => exact loadOld_err_right _ _ _ hr
         | some r =>
           by_cases e2 : c.rf = a.rf
-          · rw [loadOld_match fac s a c l r hl hr hf e1.symm e2, g1]; exact ⟨_, rfl⟩
+          · rw [loadOld_match fac s a c l r hl hr hf e1.symm e2, g1]; rfl
           · exact loadOld_err_fields _ _ _ c hf (fun h => e2 h.2)
       | true =>
         rw [g1, if_pos rfl] at h1
         rw [forIn_cons_ok _ _ _ _ _ h1]
         cases hr : Ser.resolveIds (abs s) a.right with
         | none =>
-          obtain ⟨e, he⟩ := field_unresolved env fac s
+          obtain ⟨e, he, hfe⟩ := field_unresolved env fac s
             { cls := a.metaconcept, lf := c.lf, rf := c.rf, left := l, distinct := hne } a.rf a.right hr
-          exact .inl ⟨⟨e, forIn_cons_err _ _ _ _ _ he⟩, loadOld_err_right _ _ _ hr⟩
+          exact .inl ⟨⟨e, forIn_cons_err _ _ _ _ _ he, hfe⟩, loadOld_err_right _ _ _ hr⟩
         | some r =>
           have h2 := field_resolved env fac s
             { cls := a.metaconcept, lf := c.lf, rf := c.rf, left := l, distinct := hne } a.rf a.right r c hr hf
@@ -303,8 +314,8 @@ theorem fields_cases (env : ModelEnv) (fac : Factory) (s : H) (a : OldAssoc) (c 
             cases g2 : fieldOk fac s c.rtype c.rmax r with
             | false =>
               rw [g2] at h2
-              refine .inl ⟨⟨_, forIn_cons_err _ _ _ _ _ h2⟩, ?_⟩
-              rw [loadOld_match fac s a c l r hl hr hf e1.symm e2.symm, g1, g2]; exact ⟨_, rfl⟩
+              refine .inl ⟨⟨_, forIn_cons_err _ _ _ _ _ h2, Or.inr rfl⟩, ?_⟩
+              rw [loadOld_match fac s a c l r hl hr hf e1.symm e2.symm, g1, g2]; rfl
             | true =>
               rw [g2, if_pos rfl] at h2
               refine .inr ⟨l, r, ?_, ?_⟩
@@ -312,12 +323,12 @@ theorem fields_cases (env : ModelEnv) (fac : Factory) (s : H) (a : OldAssoc) (c 
               · rw [loadOld_match fac s a c l r hl hr hf e1.symm e2.symm, g1, g2]; rfl
           · have hb3 : (a.rf == c.rf) = false := beq_eq_false_iff_ne.2 e2
             rw [hb3, if_neg (by decide)] at h2
-            exact .inl ⟨⟨_, forIn_cons_err _ _ _ _ _ h2⟩,
+            exact .inl ⟨⟨_, forIn_cons_err _ _ _ _ _ h2, Or.inr rfl⟩,
               loadOld_err_fields _ _ _ c hf (fun h => e2 h.2.symm)⟩
     · -- the first entry is not the left field: the hand model rejects the entry
       have hb : (a.lf == c.lf) = false := beq_eq_false_iff_ne.2 e1
       rw [hb, if_neg (by decide)] at h1
-      have hbad : ∃ er, loadOldAssoc fac.L (abs s) a = .error er :=
+      have hbad : loadOldAssoc fac.L (abs s) a = .error .validation :=
         loadOld_err_fields _ _ _ c hf (fun h => e1 h.1.symm)
       by_cases e1' : a.lf = c.rf
       · have hb' : (a.lf == c.rf) = true := beq_iff_eq.2 e1'
@@ -325,15 +336,15 @@ theorem fields_cases (env : ModelEnv) (fac : Factory) (s : H) (a : OldAssoc) (c 
         cases g1 : fieldOk fac s c.rtype c.rmax l with
         | false =>
           rw [g1] at h1
-          exact .inl ⟨⟨_, forIn_cons_err _ _ _ _ _ h1⟩, hbad⟩
+          exact .inl ⟨⟨_, forIn_cons_err _ _ _ _ _ h1, Or.inr rfl⟩, hbad⟩
         | true =>
           rw [g1, if_pos rfl] at h1
           rw [forIn_cons_ok _ _ _ _ _ h1]
           cases hr : Ser.resolveIds (abs s) a.right with
           | none =>
-            obtain ⟨e, he⟩ := field_unresolved env fac s
+            obtain ⟨e, he, hfe⟩ := field_unresolved env fac s
               { cls := a.metaconcept, lf := c.lf, rf := c.rf, right := l, distinct := hne } a.rf a.right hr
-            exact .inl ⟨⟨e, forIn_cons_err _ _ _ _ _ he⟩, hbad⟩
+            exact .inl ⟨⟨e, forIn_cons_err _ _ _ _ _ he, hfe⟩, hbad⟩
           | some r =>
             have h2 := field_resolved env fac s
               { cls := a.metaconcept, lf := c.lf, rf := c.rf, right := l, distinct := hne } a.rf a.right r c hr hf
@@ -341,17 +352,39 @@ theorem fields_cases (env : ModelEnv) (fac : Factory) (s : H) (a : OldAssoc) (c 
             have hb2 : (a.rf == c.lf) = false := beq_eq_false_iff_ne.2 (fun h => hsw ⟨e1', h⟩)
             have hb3 : (a.rf == c.rf) = false := beq_eq_false_iff_ne.2 (fun h => hd (e1'.trans h.symm))
             rw [hb2, if_neg (by decide), hb3, if_neg (by decide)] at h2
-            exact .inl ⟨⟨_, forIn_cons_err _ _ _ _ _ h2⟩, hbad⟩
+            exact .inl ⟨⟨_, forIn_cons_err _ _ _ _ _ h2, Or.inr rfl⟩, hbad⟩
       · have hb' : (a.lf == c.rf) = false := beq_eq_false_iff_ne.2 e1'
         rw [hb', if_neg (by decide)] at h1
-        exact .inl ⟨⟨_, forIn_cons_err _ _ _ _ _ h1⟩, hbad⟩
+        exact .inl ⟨⟨_, forIn_cons_err _ _ _ _ _ h1, Or.inr rfl⟩, hbad⟩
+
+/-! ### a member id that is not a number (the one-fault disagreement of this loop) -/
+
+/-- a member id of the first field is a string that is not a number: `int(id)` raises `ValueError` … -/
+theorem assocBody_left_not_int (env : ModelEnv) (fac : Factory) (nested : Bool) (a : OldAssoc)
+    (hW : AssocWf fac.L nested a) (s : H) (c : MS.AssocClass)
+    (hf : (MS.assocClasses fac.L).find? (·.cls = a.metaconcept) = some c) (hne : c.lf ≠ c.rf)
+    (h : a.left.mapM Key.toInt? = none) :
+    assocBody env fac (encAssoc nested a) s = .error (.py .valueError) := by
+  rw [assocBody_some env fac nested a hW s c hf hne]
+  unfold assocItems
+  have h1 : fieldBody env fac s.lfresh (.str a.lf, .list (a.left.map keyJ))
+      (newAssocObj s { cls := a.metaconcept, lf := c.lf, rf := c.rf, distinct := hne }) = .error (.py .valueError) := by
+    rw [fieldBody_eq, h]
+  rw [forIn_cons_err _ _ _ _ _ h1]
+  rfl
+
+/-- … and the hand model, which does not tell a non-number from an unknown id, says `validation` -/
+theorem loadOld_left_not_int (L : Lang) (st : MS.St) (a : OldAssoc) (h : a.left.mapM Key.toInt? = none) :
+    loadOldAssoc L st a = .error .validation := by
+  apply loadOld_err_left
+  rw [resolveIds_eq, h]; rfl
 
 /-! ### one round of the association loop -/
 
 theorem assoc_cases (env : ModelEnv) (fac : Factory) (hL : FieldsDistinct fac.L) (nested : Bool) (a : OldAssoc)
     (hW : AssocWf fac.L nested a) (s : H) :
-    ((∃ e, assocBody env fac (encAssoc nested a) s = .error e) ∧
-      ∃ er, loadOldAssoc fac.L (abs s) a = .error er) ∨
+    (∃ e er, assocBody env fac (encAssoc nested a) s = .error e ∧
+      loadOldAssoc fac.L (abs s) a = .error er ∧ OldErrAgree e er) ∨
     (∃ o : PyAssoc,
       assocBody env fac (encAssoc nested a) s =
         (liftPy (model_add_association (newAssocObj s o) env s.lfresh)).bind
@@ -360,12 +393,13 @@ theorem assoc_cases (env : ModelEnv) (fac : Factory) (hL : FieldsDistinct fac.L)
         addAssocCore (abs s) { cls := o.cls, lf := o.lf, rf := o.rf, left := o.left, right := o.right }) := by
   cases hf : (MS.assocClasses fac.L).find? (·.cls = a.metaconcept) with
   | none =>
-    exact .inl ⟨⟨_, assocBody_none env fac nested a hW s hf⟩, loadOld_err_class _ _ _ hf⟩
+    obtain ⟨er, her, hag⟩ := loadOld_err_class fac.L (abs s) a hf
+    exact .inl ⟨_, er, assocBody_none env fac nested a hW s hf, her, hag⟩
   | some c =>
     have hne : c.lf ≠ c.rf := hL c (List.mem_of_find?_eq_some hf)
     rw [assocBody_some env fac nested a hW s c hf hne]
-    rcases fields_cases env fac s a c hf hne hW.distinct (hW.notSwapped c hf) with ⟨⟨e, he⟩, hbad⟩ | ⟨l, r, hok, hld⟩
-    · rw [he]; exact .inl ⟨⟨e, rfl⟩, hbad⟩
+    rcases fields_cases env fac s a c hf hne hW.distinct (hW.notSwapped c hf) with ⟨⟨e, he, hfe⟩, hbad⟩ | ⟨l, r, hok, hld⟩
+    · rw [he]; exact .inl ⟨e, .validation, rfl, hbad, hfe.agree⟩
     · rw [hok]
       exact .inr ⟨{ cls := a.metaconcept, lf := c.lf, rf := c.rf, left := l, right := r, distinct := hne }, rfl, hld⟩
 
@@ -373,7 +407,7 @@ theorem assoc_sim {env : ModelEnv} (hE : EqId env) (fac : Factory) (hL : FieldsD
     StepSim PL (AssocWf fac.L nested) (assocBody env fac) (encAssoc nested) (loadOldAssoc fac.L) := by
   refine ⟨?_, ?_⟩
   · intro n s a r hP hW hb
-    rcases assoc_cases env fac hL nested a hW s with ⟨⟨e, he⟩, _⟩ | ⟨o, hbody, hld⟩
+    rcases assoc_cases env fac hL nested a hW s with ⟨e, _, he, _, _⟩ | ⟨o, hbody, hld⟩
     · rw [he] at hb; cases hb
     · rw [hbody] at hb
       have htie := add_association_tie hE s hP.1 o
@@ -403,14 +437,17 @@ theorem assoc_sim {env : ModelEnv} (hE : EqId env) (fac : Factory) (hL : FieldsD
           rw [hfr.efresh]
           exact hP.2 u x hx
   · intro n s a e hP hW hb
-    rcases assoc_cases env fac hL nested a hW s with ⟨_, hbad⟩ | ⟨o, hbody, hld⟩
-    · exact hbad
+    rcases assoc_cases env fac hL nested a hW s with ⟨e', er, he, her, hag⟩ | ⟨o, hbody, hld⟩
+    · rw [he] at hb
+      cases hb
+      exact ⟨er, her, hag⟩
     · rw [hbody] at hb
       have htie := add_association_tie hE s hP.1 o
       cases hm : model_add_association (newAssocObj s o) env s.lfresh with
       | ok s1 => rw [hm] at hb; cases hb
       | error e1 =>
-        rw [hm] at htie
-        exact ⟨errAbs e1, by rw [hld, ← htie]; rfl⟩
+        rw [hm] at hb htie
+        cases hb
+        exact ⟨errAbs e1, by rw [hld, ← htie]; rfl, OldErrAgree.py e1⟩
 
 end MalVerif.PyLeg.Tie
